@@ -2,7 +2,9 @@
 
 A pattern is Python source in which
   __x        (a Name starting with two underscores) is a metavariable: it binds any local identifier (a Name), consistently
-             within one Env (the same __x must be the same identifier everywhere the Env is used);
+             within one Env (the same __x must be the same identifier everywhere the Env is used) and injectively (two
+             different metavariables never bind the same identifier);
+  __any1     (any name starting with __any) matches any identifier and remembers nothing;
   ___x       (three underscores) binds any expression (compared by its unparsed text when it occurs again);
   await      in the code is transparent (a pattern without it matches the awaited call);
   ...        as a statement in a body matches any (possibly empty) run of statements; as a call argument matches any remaining
@@ -59,8 +61,12 @@ def match(p, n, env: Env) -> bool:
             return True
         if not isinstance(n, ast.Name):
             return False
+        if mv.startswith("__any"):
+            return True  # __any, __any1, ...: some identifier, not remembered
         if mv in env:
             return env[mv] == n.id
+        if any(v == n.id and k != mv and not k.startswith("___") for k, v in env.items()):
+            return False  # two roles are never the same variable
         env[mv] = n.id
         return True
     if isinstance(p, ast.AST) and _is_ellipsis_expr(p) and isinstance(n, ast.expr):
